@@ -121,8 +121,8 @@ fn main() {
                 let mut ev = 0u64; let mut okd = 0u64; let mut viol: Vec<String> = Vec::new(); let mut samp: Vec<String> = Vec::new();
                 let mut run = |reference: &[u8], data: &[u8]| {
                     ev += 2;
-                    match case_decode(reference, data) { Ok(true) => okd += 1, Ok(false) => {}, Err(e) => { if viol.len() < 3 { viol.push(format!("decode {} {} :: {e}", hex(reference), hex(data))); } } }
-                    if let Err(e) = case_delta(reference, data) { if viol.len() < 3 { viol.push(format!("delta {} {} :: {e}", hex(reference), hex(data))); } }
+                    match case_decode(reference, data) { Ok(true) => okd += 1, Ok(false) => {}, Err(e) => { if viol.len() < 3 { viol.push(format!("decode|{}|{} :: {e}", hex(reference), hex(data))); } } }
+                    if let Err(e) = case_delta(reference, data) { if viol.len() < 3 { viol.push(format!("delta|{}|{} :: {e}", hex(reference), hex(data))); } }
                 };
                 for (ri, reference) in refs.iter().enumerate() {
                     if chunk == 0 { run(reference, &[]); }
@@ -148,12 +148,12 @@ fn main() {
         let alpha: Vec<u8> = vec![0, 1, 2, 3, 4, 5, 7, 8, 0x0f, 0x10, 0x3f, 0x40, 0x7e, 0x7f, 0x80, 0x81, 0xbf, 0xc0, 0xfc, 0xfd, 0xfe, 0xff, 0x55, 0xaa];
         for data in strings_over(&alpha, 4).into_iter().filter(|s| s.len() == 4) {
             evals += 1;
-            if let Err(e) = case_decode(refs[0], &data) { if violations.len() < 5 { violations.push(format!("decode {} {} :: {e}", hex(refs[0]), hex(&data))); } }
+            if let Err(e) = case_decode(refs[0], &data) { if violations.len() < 5 { violations.push(format!("decode|{}|{} :: {e}", hex(refs[0]), hex(&data))); } }
         }
         // long varints: 5..10 byte varints with all continuation patterns of interest
         for n in 5..=11usize { for last in [0x00u8, 0x01, 0x0f, 0x7f] { for first in [0xfdu8, 0xfe, 0xff, 0x80, 0x81] {
             let mut d = vec![0xffu8; n]; d[0] = first; d[n - 1] = last; evals += 1;
-            if let Err(e) = case_decode(refs[0], &d) { if violations.len() < 5 { violations.push(format!("decode {} {} :: {e}", hex(refs[0]), hex(&d))); } }
+            if let Err(e) = case_decode(refs[0], &d) { if violations.len() < 5 { violations.push(format!("decode|{}|{} :: {e}", hex(refs[0]), hex(&d))); } }
         } } }
     }
     // T2: round trips over the alphabet {00, 01, ff, 80}
@@ -162,16 +162,16 @@ fn main() {
     let inputs2 = strings_over(&alpha, 2);
     let rrefs = strings_over(&alpha, 2);
     for r in &rrefs {
-        evals += 1; if let Err(e) = case_rt(r, &[]) { violations.push(format!("rt {} :: {e}", hex(r))); }
+        evals += 1; if let Err(e) = case_rt(r, &[]) { violations.push(format!("rt|{}| :: {e}", hex(r))); }
         for a in &inputs3 {
-            evals += 1; if let Err(e) = case_rt(r, &[a.clone()]) { if violations.len() < 5 { violations.push(format!("rt {} {} :: {e}", hex(r), hex(a))); } }
+            evals += 1; if let Err(e) = case_rt(r, &[a.clone()]) { if violations.len() < 5 { violations.push(format!("rt|{}|{} :: {e}", hex(r), hex(a))); } }
             for b in &inputs3 {
-                evals += 1; if let Err(e) = case_rt(r, &[a.clone(), b.clone()]) { if violations.len() < 5 { violations.push(format!("rt {} {},{} :: {e}", hex(r), hex(a), hex(b))); } }
+                evals += 1; if let Err(e) = case_rt(r, &[a.clone(), b.clone()]) { if violations.len() < 5 { violations.push(format!("rt|{}|{},{} :: {e}", hex(r), hex(a), hex(b))); } }
             }
         }
         let third: &Vec<Vec<u8>> = if thorough { &inputs3 } else { &inputs2 };
         for a in third { for b in third { for c in third {
-            evals += 1; if let Err(e) = case_rt(r, &[a.clone(), b.clone(), c.clone()]) { if violations.len() < 5 { violations.push(format!("rt {} {},{},{} :: {e}", hex(r), hex(a), hex(b), hex(c))); } }
+            evals += 1; if let Err(e) = case_rt(r, &[a.clone(), b.clone(), c.clone()]) { if violations.len() < 5 { violations.push(format!("rt|{}|{},{},{} :: {e}", hex(r), hex(a), hex(b), hex(c))); } }
         } } }
     }
     samples.push(format!("rt ref={} inputs=[{},{}]", hex(&rrefs[5]), hex(&inputs3[20]), hex(&inputs3[70])));
@@ -194,7 +194,7 @@ fn main() {
             xs.push(v);
         }
         evals += 1;
-        if let Err(e) = case_rt(&reference, &xs) { if violations.len() < 5 { violations.push(format!("rtlong :: {}", &e[..e.len().min(400)])); } }
+        if let Err(e) = case_rt(&reference, &xs) { if violations.len() < 5 { violations.push(format!("rtlong|| :: {}", &e[..e.len().min(400)])); } }
         if i == 7 { samples.push(format!("rt-long ref_len={} input_lens={:?}", reference.len(), xs.iter().map(|x| x.len()).collect::<Vec<_>>())); }
     }
     println!("RESULT evals={evals} ok_decodes={ok_decodes} violations={}", violations.len());
